@@ -100,13 +100,19 @@ func (fc *FnCtx) Generate() (err error) {
 	// global invariants (tables) are assumed at entry of every function except the initialiser that establishes them
 	if !fc.isInit {
 		for _, g := range fc.w.cs.Globals {
-			ge := &Env{w: fc.w, pkg: fc.w.typePkgs["url"], vars: map[string]EV{}, st: fc.entry}
+			ge := &Env{w: fc.w, pkg: fc.w.typePkgs["url"], vars: map[string]EV{}, st: fc.entry, facts: &fc.facts}
 			t, err := ge.EvalBool(g.Expr)
 			if err != nil {
 				return fmt.Errorf("global invariant %s: %v", g.Name, err)
 			}
 			fc.assumeRaw(t)
 		}
+	}
+	if fc.isInit {
+		// the package initialiser runs exactly once, with its guard variable still false
+		gk := "G_" + fc.pkg.Name() + ".initSguard"
+		fc.w.regHeap(gk, SBool)
+		fc.assumeRaw(not(gk + "!0"))
 	}
 	for _, r := range fc.contract.Requires {
 		t, err := env0.EvalBool(r.Expr)
@@ -115,6 +121,8 @@ func (fc *FnCtx) Generate() (err error) {
 		}
 		fc.assumeRaw(t)
 	}
+	fc.flushFacts()
+	fc.canary("entry", "false", "precondition and global invariants of "+fc.key+" are satisfiable")
 	me, err2 := env0.modEntries(fc.contract.Modifies)
 	if err2 != nil {
 		return fmt.Errorf("modifies of %s: %v", fc.key, err2)
@@ -132,7 +140,17 @@ func (fc *FnCtx) Generate() (err error) {
 	for _, b := range order {
 		fc.block(b)
 	}
+	fc.reach = "true"
+	fc.canary("returns", not(or(fc.returnReach...)), "some return of "+fc.key+" is reachable under the assumptions")
 	return nil
+}
+
+// canary records a goal that must NOT be provable (vacuity guard). It is never assumed.
+func (fc *FnCtx) canary(label string, goal Term, text string) {
+	fc.kindCnt["canary"]++
+	o := &Obligation{Name: fmt.Sprintf("%s/canary/%d/%s", fc.key, fc.kindCnt["canary"], label), Func: fc.key, Kind: "canary", Label: label,
+		Goal: implies(fc.reach, goal), LogLen: len(fc.log), Pos: fc.w.fset.Position(fc.fn.Pos()), Text: text}
+	fc.obls = append(fc.obls, o)
 }
 
 func sanitizeName(n string) string {
@@ -466,6 +484,7 @@ func (fc *FnCtx) loopHead(li *loopInfo, in *State, inReach Term) {
 		}
 		fc.assume(t)
 	}
+	fc.canary("loop"+strconv.Itoa(li.ordinal), "false", fmt.Sprintf("invariants of loop %d are satisfiable", li.ordinal))
 	li.headState = hs.clone()
 	li.headReach = rH
 	// variant
@@ -795,6 +814,7 @@ func (fc *FnCtx) block(b *ssa.BasicBlock) {
 }
 
 func (fc *FnCtx) doReturn(r *ssa.Return) {
+	fc.returnReach = append(fc.returnReach, fc.reach)
 	env := fc.envAt(fc.st, fc.entryEnv(), func(name string) (EV, bool) {
 		ev, ok := fc.paramEV[name]
 		return ev, ok
@@ -803,6 +823,19 @@ func (fc *FnCtx) doReturn(r *ssa.Return) {
 	for i, rv := range r.Results {
 		t := results.At(i).Type()
 		v := fc.val(rv)
+		if sv, isStruct := v.(StructVal); isStruct {
+			tmp := fc.newRef()
+			fc.structToHeap(tmp, t, sv)
+			ev := EV{tmp, SStruct, t}
+			if n := results.At(i).Name(); n != "" && n != "_" {
+				env.vars[n] = ev
+			}
+			env.vars[fmt.Sprintf("result%d", i)] = ev
+			if results.Len() == 1 {
+				env.vars["result"] = ev
+			}
+			continue
+		}
 		tv, ok := v.(string)
 		if !ok {
 			if _, isAddr := v.(AddrField); isAddr {
